@@ -239,6 +239,11 @@ def d_linear_bounds(f, s, R, db):
     elif s['kind'] == 'call:generic-index' and len(t['args']) == 2:
         recv, idx = _nl(R.operand(t['args'][0])), _nl(R.operand(t['args'][1]))
         ty = type_of(f, norm(R.operand(t['args'][0]))) or ''
+        if not ty:
+            # the receiver operand is a temporary reference: its declared type is the type of the indexed collection
+            pl = t['args'][0].get('m') or t['args'][0].get('c')
+            if pl and not pl['pr']:
+                ty = f.local_ty(pl['l'])
         if idx[0] == 'agg':
             return None          # range indexing is handled elsewhere
         if 'DenseMatrix<' in ty:
